@@ -6,10 +6,12 @@ import XrlParser.Lemmas.Result
 namespace XrlParser
 open Hand Spec
 
+variable {v : Variant}
+
 /-! ## unbalanced parentheses: `nbrackets` tracks the nesting depth -/
 
 theorem pass1_depth : ∀ (s : List Char) (prev : Char) (st st' : Scan),
-    pass1 s prev st = .ok st' → depthAfter s st.nb = some st'.nb := by
+    pass1 v s prev st = .ok st' → depthAfter s st.nb = some st'.nb := by
   intro s
   induction s with
   | nil => intro prev st st' h; simp only [pass1, Except.ok.injEq] at h; subst h; rfl
@@ -35,7 +37,7 @@ theorem pass1_depth : ∀ (s : List Char) (prev : Char) (st st' : Scan),
             by_cases h5 : c = ' '
             · simp [h5] at h
             · simp only [h5, if_false] at h
-              by_cases h6 : (isLowerC c && isDigitC prev) = true
+              by_cases h6 : (isLowerC c && (isDigitC prev || (v.strictFix && !isUpperC prev))) = true
               · simp [h6] at h
               · simp only [h6] at h
                 by_cases h7 : (isLowerC c || isDigitC c || decide (c = '.')) = true
@@ -44,12 +46,12 @@ theorem pass1_depth : ∀ (s : List Char) (prev : Char) (st st' : Scan),
 
 /-- a string with unbalanced parentheses is rejected at the level where it is scanned -/
 theorem parseLevel_unbalanced (T : Tables) (rec : List Char → Except Fail (Atoms × Nat)) (s : List Char)
-    (h : ¬ Balanced s) : ∃ e, parseLevel T rec s = .error e := by
+    (h : ¬ Balanced s) : ∃ e, parseLevel v T rec s = .error e := by
   unfold parseLevel
-  by_cases h0 : (isLowerC (cAt s 0) || isDigitC (cAt s 0)) = true
+  by_cases h0 : (isLowerC (cAt s 0) || isDigitC (cAt s 0) || (v.strictFix && decide (cAt s 0 = '.'))) = true
   · exact ⟨_, by rw [if_pos h0]⟩
   · rw [if_neg h0]
-    cases hp : pass1 s '\x00' {} with
+    cases hp : pass1 v s '\x00' {} with
     | error e => exact ⟨_, rfl⟩
     | ok st =>
       simp only []
@@ -73,9 +75,9 @@ def inside (p : List Char × List Char) : List Char := (p.1.drop 1).take (p.1.le
 /-- inside a bracket (depth `d+1`) a successful scan that ends at depth 0 passes the closing parenthesis of
     the bracket at some position `k`, records it, and continues behind it at depth 0 -/
 theorem pass1_close : ∀ (r : List Char) (d : Nat) (prev : Char) (U B E : List (List Char)) (st' : Scan),
-    pass1 r prev ⟨d + 1, U, B, E⟩ = .ok st' → st'.nb = 0 →
+    pass1 v r prev ⟨d + 1, U, B, E⟩ = .ok st' → st'.nb = 0 →
     ∃ k, k < r.length ∧ r.drop k = ')' :: r.drop (k + 1) ∧
-      pass1 r prev ⟨d + 1, U, B, E⟩ = pass1 (r.drop (k + 1)) ')' ⟨0, U, B, E ++ [r.drop k]⟩ := by
+      pass1 v r prev ⟨d + 1, U, B, E⟩ = pass1 v (r.drop (k + 1)) ')' ⟨0, U, B, E ++ [r.drop k]⟩ := by
   intro r
   induction r with
   | nil =>
@@ -86,7 +88,7 @@ theorem pass1_close : ∀ (r : List Char) (d : Nat) (prev : Char) (U B E : List 
     intro d prev U B E st' h h0
     by_cases h1 : c = '('
     · subst h1
-      have hs : pass1 ('(' :: rest) prev ⟨d + 1, U, B, E⟩ = pass1 rest '(' ⟨d + 2, U, B, E⟩ := by
+      have hs : pass1 v ('(' :: rest) prev ⟨d + 1, U, B, E⟩ = pass1 v rest '(' ⟨d + 2, U, B, E⟩ := by
         rw [pass1]; simp
       rw [hs] at h ⊢
       obtain ⟨k, hk, hd, he⟩ := ih (d + 1) '(' U B E st' h h0
@@ -95,16 +97,16 @@ theorem pass1_close : ∀ (r : List Char) (d : Nat) (prev : Char) (U B E : List 
       · subst h2
         cases d with
         | zero =>
-          have hs : pass1 (')' :: rest) prev ⟨0 + 1, U, B, E⟩ = pass1 rest ')' ⟨0, U, B, E ++ [')' :: rest]⟩ := by
+          have hs : pass1 v (')' :: rest) prev ⟨0 + 1, U, B, E⟩ = pass1 v rest ')' ⟨0, U, B, E ++ [')' :: rest]⟩ := by
             rw [pass1]; simp
           exact ⟨0, by simp, by simp, by simpa using hs⟩
         | succ d' =>
-          have hs : pass1 (')' :: rest) prev ⟨d' + 1 + 1, U, B, E⟩ = pass1 rest ')' ⟨d' + 1, U, B, E⟩ := by
+          have hs : pass1 v (')' :: rest) prev ⟨d' + 1 + 1, U, B, E⟩ = pass1 v rest ')' ⟨d' + 1, U, B, E⟩ := by
             rw [pass1]; simp
           rw [hs] at h ⊢
           obtain ⟨k, hk, hd, he⟩ := ih d' ')' U B E st' h h0
           exact ⟨k + 1, by simp; omega, by simpa using hd, by simpa using he⟩
-      · have hs := pass1_deep_step h1 h2 rest prev d U B E
+      · have hs := pass1_deep_step (v := v) h1 h2 rest prev d U B E
         rw [hs] at h ⊢
         obtain ⟨k, hk, hd, he⟩ := ih d c U B E st' h h0
         exact ⟨k + 1, by simp; omega, by simpa using hd, by simpa using he⟩
@@ -115,7 +117,7 @@ theorem paren_alphabet : inAlphabet '(' = true ∧ inAlphabet ')' = true := by d
     and recorded a bracket pair around every other character -/
 theorem pass1_cover : ∀ (n : Nat) (s : List Char), s.length = n →
     ∀ (prev : Char) (U B E : List (List Char)) (st' : Scan),
-    pass1 s prev ⟨0, U, B, E⟩ = .ok st' → st'.nb = 0 →
+    pass1 v s prev ⟨0, U, B, E⟩ = .ok st' → st'.nb = 0 →
     ∃ pairs : List (List Char × List Char),
       st'.begins = B ++ pairs.map (·.1) ∧ st'.ends = E ++ pairs.map (·.2) ∧
       ∀ c ∈ s, inAlphabet c = true ∨ ∃ p ∈ pairs, c ∈ inside p ∧ (inside p).length < s.length := by
@@ -132,7 +134,7 @@ theorem pass1_cover : ∀ (n : Nat) (s : List Char), s.length = n →
       simp only [List.length_cons] at hn
       by_cases h1 : c = '('
       · subst h1
-        have hs : pass1 ('(' :: rest) prev ⟨0, U, B, E⟩ = pass1 rest '(' ⟨0 + 1, U, B ++ ['(' :: rest], E⟩ := by
+        have hs : pass1 v ('(' :: rest) prev ⟨0, U, B, E⟩ = pass1 v rest '(' ⟨0 + 1, U, B ++ ['(' :: rest], E⟩ := by
           rw [pass1]; simp
         rw [hs] at h
         obtain ⟨k, hk, hd, he⟩ := pass1_close rest 0 '(' U (B ++ ['(' :: rest]) E st' h h0
@@ -165,7 +167,7 @@ theorem pass1_cover : ∀ (n : Nat) (s : List Char), s.length = n →
         · subst h2
           rw [pass1] at h; simp at h
         · -- an ordinary character at depth 0
-          have hstep : ∃ U', inAlphabet c = true ∧ pass1 (c :: rest) prev ⟨0, U, B, E⟩ = pass1 rest c ⟨0, U', B, E⟩ := by
+          have hstep : ∃ U', inAlphabet c = true ∧ pass1 v (c :: rest) prev ⟨0, U, B, E⟩ = pass1 v rest c ⟨0, U', B, E⟩ := by
             rw [pass1] at h ⊢
             simp only [h1, h2, if_false, Nat.lt_irrefl] at h ⊢
             by_cases h4 : isUpperC c = true
@@ -174,7 +176,7 @@ theorem pass1_cover : ∀ (n : Nat) (s : List Char), s.length = n →
               by_cases h5 : c = ' '
               · simp [h5] at h
               · simp only [h5, if_false] at h ⊢
-                by_cases h6 : (isLowerC c && isDigitC prev) = true
+                by_cases h6 : (isLowerC c && (isDigitC prev || (v.strictFix && !isUpperC prev))) = true
                 · simp [h6] at h
                 · simp only [h6] at h ⊢
                   by_cases h7 : (isLowerC c || isDigitC c || decide (c = '.')) = true
@@ -197,7 +199,7 @@ theorem pass1_cover : ∀ (n : Nat) (s : List Char), s.length = n →
 
 /-- a successful bracket loop has had a successful recursive call on the inside of every pair -/
 theorem groupsLoop_ok_rec (rec : List Char → Except Fail (Atoms × Nat)) :
-    ∀ (l : List (List Char × List Char)) (acc r : Atoms × Nat), groupsLoop rec l acc = .ok r →
+    ∀ (l : List (List Char × List Char)) (acc r : Atoms × Nat), groupsLoop v rec l acc = .ok r →
       ∀ p ∈ l, ∃ x, rec (inside p) = .ok x := by
   intro l
   induction l with
@@ -205,7 +207,7 @@ theorem groupsLoop_ok_rec (rec : List Char → Except Fail (Atoms × Nat)) :
   | cons q qs ih =>
     intro acc r h p hp
     rw [groupsLoop] at h
-    cases hq : groupStep rec acc q with
+    cases hq : groupStep v rec acc q with
     | error f => rw [hq] at h; simp at h
     | ok acc' =>
       rw [hq] at h
@@ -228,18 +230,18 @@ theorem zip_map_fst_snd (l : List (List Char × List Char)) : (l.map (·.1)).zip
 
 /-- a string with a character outside the formula alphabet is rejected -/
 theorem parseSimple_alphabet (T : Tables) : ∀ (fuel : Nat) (s : List Char), s.length < fuel →
-    (∃ c ∈ s, inAlphabet c = false) → ∃ e, parseSimple T fuel s = .error e := by
+    (∃ c ∈ s, inAlphabet c = false) → ∃ e, parseSimple v T fuel s = .error e := by
   intro fuel
   induction fuel with
   | zero => intro s h; omega
   | succ n ih =>
     intro s hlen ⟨c, hc, hbad⟩
-    show ∃ e, parseLevel T (parseSimple T n) s = .error e
+    show ∃ e, parseLevel v T (parseSimple v T n) s = .error e
     unfold parseLevel
-    by_cases h0 : (isLowerC (cAt s 0) || isDigitC (cAt s 0)) = true
+    by_cases h0 : (isLowerC (cAt s 0) || isDigitC (cAt s 0) || (v.strictFix && decide (cAt s 0 = '.'))) = true
     · exact ⟨_, by rw [if_pos h0]⟩
     · rw [if_neg h0]
-      cases hp : pass1 s '\x00' {} with
+      cases hp : pass1 v s '\x00' {} with
       | error e => exact ⟨_, rfl⟩
       | ok st =>
         simp only []
@@ -249,11 +251,11 @@ theorem parseSimple_alphabet (T : Tables) : ∀ (fuel : Nat) (s : List Char), s.
           by_cases h2 : st.nb > 0
           · exact ⟨_, by rw [if_pos h2]⟩
           · rw [if_neg h2]
-            cases ha : atomsLoop T st.uppers [] with
+            cases ha : atomsLoop v T st.uppers [] with
             | error e => exact ⟨_, rfl⟩
             | ok ca =>
               simp only []
-              cases hg : groupsLoop (parseSimple T n) (st.begins.zip st.ends) (ca, 0) with
+              cases hg : groupsLoop v (parseSimple v T n) (st.begins.zip st.ends) (ca, 0) with
               | error f => exact ⟨_, rfl⟩
               | ok r =>
                 exfalso
@@ -353,19 +355,27 @@ theorem strtod_junk {t : List Char} (hne : t ≠ []) (hall : ∀ c ∈ t, subCha
         simp [h1, h2]
 
 /-- a subscript that is zero or not a numeral is an error -/
-theorem subscript_bad (zeroErr : List Char → Err) {s : Sub} (hs : s.Shape) (hp : ¬ s.Pos) {r : List Char} (hr : Stop r) :
-    ∃ e, subscript zeroErr (s.print ++ r) = .error e := by
+theorem subscript_bad (zeroErr : List Char → Err) {s : Sub} (hs : s.Shape) (hp : ¬ SubOK v s) {r : List Char} (hr : Stop r) :
+    ∃ e, subscript v zeroErr (s.print ++ r) = .error e := by
   cases s with
-  | one => exact absurd trivial hp
+  | one => exact absurd subOK_one hp
   | dec d =>
-    have hv : d.value = 0 := le_antisymm (le_of_not_gt hp) (dec_value_nonneg d)
     have hsc := scanSub_spec d.print (dec_print_chars d) hr
     have hnd := dec_print_ndots d
     have hlen := dec_print_ne_nil hs
     have htake : (d.print ++ r).take d.print.length = d.print := List.take_left' rfl
     simp only [subscript, Sub.print, hsc, htake, strtod_dec hs]
     rw [if_neg (by omega), if_neg hlen]
-    simp [hv]
+    by_cases h1 : (decide (d.print.length ≠ d.print.length) || (v.rangeFix && dblRoundsToInf d.value)) = true
+    · rw [if_pos h1]; exact ⟨_, rfl⟩
+    · rw [if_neg h1]
+      by_cases h2 : dblRoundsToZero d.value = true
+      · rw [if_pos h2]; exact ⟨_, rfl⟩
+      · exfalso
+        apply hp
+        have h2' : dblRoundsToZero d.value = false := by simpa using h2
+        refine ⟨pos_of_not_roundsToZero h2', h2', fun hr' => ?_⟩
+        simpa [hr', Sub.value] using h1
   | junk t =>
     obtain ⟨hne, hall, hj⟩ := hs
     have hsc := scanSub_spec t hall hr
@@ -374,12 +384,12 @@ theorem subscript_bad (zeroErr : List Char → Err) {s : Sub} (hs : s.Shape) (hp
     by_cases hd : (t.drop 1).count '.' > 1
     · exact ⟨_, by rw [if_pos hd]⟩
     · rw [if_neg hd, if_neg (by simpa using hne)]
-      rw [if_pos (strtod_junk hne hall hj)]
+      rw [if_pos (by simp [strtod_junk hne hall hj])]
       exact ⟨_, rfl⟩
 
 theorem parseAtom_bad (T : Tables) {sym : List Char} (hsym : SymShape sym) {s : Sub} (hs : s.Shape)
-    (hbad : ¬ ((lookupSym T sym).isSome ∧ s.Pos)) {r : List Char} (hr : Stop r) :
-    ∃ e, parseAtom T (sym ++ s.print ++ r) = .error e := by
+    (hbad : ¬ ((lookupSym T sym).isSome ∧ SubOK v s)) {r : List Char} (hr : Stop r) :
+    ∃ e, parseAtom v T (sym ++ s.print ++ r) = .error e := by
   have hlow := stop_sub_lower hs hr
   rcases hsym with ⟨u, rfl, hu⟩ | ⟨u, l, rfl, hu, hl⟩
   · simp only [parseAtom, List.cons_append, List.nil_append, cAt_cons_succ, hlow,
@@ -388,7 +398,7 @@ theorem parseAtom_bad (T : Tables) {sym : List Char} (hsym : SymShape sym) {s : 
     cases hl : lookupSym T [u] with
     | none => exact ⟨_, rfl⟩
     | some Z =>
-      have hp : ¬ s.Pos := fun hp => hbad ⟨by simp [hl], hp⟩
+      have hp : ¬ SubOK v s := fun hp => hbad ⟨by simp [hl], hp⟩
       obtain ⟨⟨e1, k1⟩, he⟩ := subscript_bad (fun _ => Err.zero) hs hp hr
       simp only [he]
       exact ⟨_, rfl⟩
@@ -397,36 +407,36 @@ theorem parseAtom_bad (T : Tables) {sym : List Char} (hsym : SymShape sym) {s : 
     cases hl' : lookupSym T [u, l] with
     | none => exact ⟨_, rfl⟩
     | some Z =>
-      have hp : ¬ s.Pos := fun hp => hbad ⟨by simp [hl'], hp⟩
+      have hp : ¬ SubOK v s := fun hp => hbad ⟨by simp [hl'], hp⟩
       obtain ⟨⟨e1, k1⟩, he⟩ := subscript_bad (fun _ => Err.zero) hs hp hr
       simp only [he]
       exact ⟨_, rfl⟩
 
 /-- the top-level symbols are known with positive subscripts / the top-level groups are valid -/
-def KnownA (E : Elements) : Formula → Prop
+def KnownA (v : Variant) (E : Elements) : Formula → Prop
   | .nil => True
-  | .atom sym sub rest => ((E.zOf sym).isSome ∧ sub.Pos) ∧ KnownA E rest
-  | .group _ _ rest => KnownA E rest
+  | .atom sym sub rest => ((E.zOf sym).isSome ∧ SubOK v sub) ∧ KnownA v E rest
+  | .group _ _ rest => KnownA v E rest
 
-def KnownG (E : Elements) : Formula → Prop
+def KnownG (v : Variant) (E : Elements) : Formula → Prop
   | .nil => True
-  | .atom _ _ rest => KnownG E rest
-  | .group inner sub rest => ((inner ≠ .nil ∧ inner.Known E) ∧ sub.Pos) ∧ KnownG E rest
+  | .atom _ _ rest => KnownG v E rest
+  | .group inner sub rest => ((inner ≠ .nil ∧ KnownV v E inner) ∧ SubOK v sub) ∧ KnownG v E rest
 
-theorem known_iff (E : Elements) (f : Formula) : f.Known E ↔ KnownA E f ∧ KnownG E f := by
+theorem known_iff (E : Elements) (f : Formula) : KnownV v E f ↔ KnownA v E f ∧ KnownG v E f := by
   induction f with
-  | nil => simp [Formula.Known, KnownA, KnownG]
-  | atom sym sub rest ih => simp only [Formula.Known, KnownA, KnownG, ih]; tauto
-  | group inner sub rest _ ih => simp only [Formula.Known, KnownA, KnownG, ih]; tauto
+  | nil => simp [KnownV, KnownA, KnownG]
+  | atom sym sub rest ih => simp only [KnownV, KnownA, KnownG, ih]; tauto
+  | group inner sub rest _ ih => simp only [KnownV, KnownA, KnownG, ih]; tauto
 
-theorem atomsLoop_bad (T : Tables) (f : Formula) (hf : f.Shape) (hb : ¬ KnownA (elementsOf T) f) :
-    ∀ ca, ∃ e, atomsLoop T (ups f []) ca = .error e := by
+theorem atomsLoop_bad (T : Tables) (f : Formula) (hf : f.Shape) (hb : ¬ KnownA v (elementsOf T) f) :
+    ∀ ca, ∃ e, atomsLoop v T (ups f []) ca = .error e := by
   induction f with
   | nil => exact absurd trivial hb
   | atom sym sub rest ih =>
     intro ca
-    by_cases hthis : (lookupSym T sym).isSome ∧ sub.Pos
-    · have hrest : ¬ KnownA (elementsOf T) rest := fun h => hb ⟨hthis, h⟩
+    by_cases hthis : (lookupSym T sym).isSome ∧ SubOK v sub
+    · have hrest : ¬ KnownA v (elementsOf T) rest := fun h => hb ⟨hthis, h⟩
       obtain ⟨Z, hZ⟩ := Option.isSome_iff_exists.1 hthis.1
       have hpa := parseAtom_ok T hf.1 hZ hf.2.1 hthis.2 (stop_printL hf.2.2 stop_nil)
       obtain ⟨e, he⟩ := ih hf.2.2 hrest (addAtom ca Z sub.value)
@@ -439,8 +449,8 @@ theorem atomsLoop_bad (T : Tables) (f : Formula) (hf : f.Shape) (hb : ¬ KnownA 
     obtain ⟨e, he⟩ := ih hf.2.2 hb ca
     exact ⟨e, by simpa [ups] using he⟩
 
-theorem atomsLoop_fine (T : Tables) (f : Formula) (hf : f.Shape) (hk : KnownA (elementsOf T) f) :
-    ∀ ca, ∃ ca', atomsLoop T (ups f []) ca = .ok ca' := by
+theorem atomsLoop_fine (T : Tables) (f : Formula) (hf : f.Shape) (hk : KnownA v (elementsOf T) f) :
+    ∀ ca, ∃ ca', atomsLoop v T (ups f []) ca = .ok ca' := by
   induction f with
   | nil => intro ca; exact ⟨ca, rfl⟩
   | atom sym sub rest ih =>
@@ -455,20 +465,20 @@ theorem atomsLoop_fine (T : Tables) (f : Formula) (hf : f.Shape) (hk : KnownA (e
     exact ⟨ca', by simpa [ups] using h⟩
 
 theorem groupsLoop_cons_err {rec : List Char → Except Fail (Atoms × Nat)} {q : List Char × List Char}
-    {qs : List (List Char × List Char)} {acc : Atoms × Nat} {f' : Fail} (h : groupStep rec acc q = .error f') :
-    groupsLoop rec (q :: qs) acc = .error f' := by rw [groupsLoop, h]
+    {qs : List (List Char × List Char)} {acc : Atoms × Nat} {f' : Fail} (h : groupStep v rec acc q = .error f') :
+    groupsLoop v rec (q :: qs) acc = .error f' := by rw [groupsLoop, h]
 
 theorem groupsLoop_cons_ok {rec : List Char → Except Fail (Atoms × Nat)} {q : List Char × List Char}
-    {qs : List (List Char × List Char)} {acc acc' : Atoms × Nat} (h : groupStep rec acc q = .ok acc') :
-    groupsLoop rec (q :: qs) acc = groupsLoop rec qs acc' := by rw [groupsLoop, h]
+    {qs : List (List Char × List Char)} {acc acc' : Atoms × Nat} (h : groupStep v rec acc q = .ok acc') :
+    groupsLoop v rec (q :: qs) acc = groupsLoop v rec qs acc' := by rw [groupsLoop, h]
 
 /-- the bracket loop fails when a top-level group is invalid, given that the recursive call accepts the
     valid and rejects the invalid shorter formulas -/
 theorem groupsLoop_bad (T : Tables) (rec : List Char → Except Fail (Atoms × Nat)) (N : Nat)
-    (hok : ∀ g : Formula, g.WF (elementsOf T) → g.printL.length < N → ∃ x, rec g.printL = .ok x)
-    (herr : ∀ g : Formula, g.Shape → (g = .nil ∨ ¬ g.Known (elementsOf T)) → g.printL.length < N → ∃ e, rec g.printL = .error e)
-    (f : Formula) (hf : f.Shape) (hb : ¬ KnownG (elementsOf T) f) (hlen : f.printL.length ≤ N) :
-    ∀ acc, ∃ e, groupsLoop rec ((begs f []).zip (ens f [])) acc = .error e := by
+    (hok : ∀ g : Formula, WFV v (elementsOf T) g → g.printL.length < N → ∃ x, rec g.printL = .ok x)
+    (herr : ∀ g : Formula, g.Shape → (g = .nil ∨ ¬ KnownV v (elementsOf T) g) → g.printL.length < N → ∃ e, rec g.printL = .error e)
+    (f : Formula) (hf : f.Shape) (hb : ¬ KnownG v (elementsOf T) f) (hlen : f.printL.length ≤ N) :
+    ∀ acc, ∃ e, groupsLoop v rec ((begs f []).zip (ens f [])) acc = .error e := by
   induction f with
   | nil => exact absurd trivial hb
   | atom sym sub rest ih =>
@@ -482,12 +492,12 @@ theorem groupsLoop_bad (T : Tables) (rec : List Char → Except Fail (Atoms × N
     have hl : rest.printL.length ≤ N := by omega
     have hstop := stop_printL hf.2.2 stop_nil
     simp only [begs, ens, List.zip_cons_cons]
-    by_cases hin : inner ≠ .nil ∧ inner.Known (elementsOf T)
+    by_cases hin : inner ≠ .nil ∧ KnownV v (elementsOf T) inner
     · obtain ⟨x, hx⟩ := hok inner ⟨hin.1, hf.1, hin.2⟩ (by omega)
-      by_cases hp : sub.Pos
-      · have hrest : ¬ KnownG (elementsOf T) rest := fun h => hb ⟨⟨hin, hp⟩, h⟩
+      by_cases hp : SubOK v sub
+      · have hrest : ¬ KnownG v (elementsOf T) rest := fun h => hb ⟨⟨hin, hp⟩, h⟩
         have hsub := subscript_ok (fun s => Err.convert s) hf.2.1 hp hstop
-        have hstep : ∃ acc', groupStep rec acc
+        have hstep : ∃ acc', groupStep v rec acc
             ('(' :: (inner.printL ++ ')' :: (sub.print ++ (rest.printL ++ []))), ')' :: (sub.print ++ (rest.printL ++ [])))
             = .ok acc' := by
           unfold groupStep
@@ -502,7 +512,7 @@ theorem groupsLoop_bad (T : Tables) (rec : List Char → Except Fail (Atoms × N
         obtain ⟨e, he⟩ := ih hf.2.2 hrest hl acc'
         exact ⟨e, by rw [groupsLoop_cons_ok ha]; exact he⟩
       · obtain ⟨⟨e1, k1⟩, he⟩ := subscript_bad (fun s => Err.convert s) hf.2.1 hp hstop
-        have hstep : ∃ f', groupStep rec acc
+        have hstep : ∃ f', groupStep v rec acc
             ('(' :: (inner.printL ++ ')' :: (sub.print ++ (rest.printL ++ []))), ')' :: (sub.print ++ (rest.printL ++ [])))
             = .error f' := by
           unfold groupStep
@@ -513,12 +523,12 @@ theorem groupsLoop_bad (T : Tables) (rec : List Char → Except Fail (Atoms × N
           exact ⟨_, rfl⟩
         obtain ⟨f', hf'⟩ := hstep
         exact ⟨f', groupsLoop_cons_err hf'⟩
-    · have hbad : inner = .nil ∨ ¬ inner.Known (elementsOf T) := by
+    · have hbad : inner = .nil ∨ ¬ KnownV v (elementsOf T) inner := by
         by_cases h : inner = .nil
         · exact Or.inl h
         · exact Or.inr (fun hk => hin ⟨h, hk⟩)
       obtain ⟨e, he⟩ := herr inner hf.1 hbad (by omega)
-      have hstep : ∃ f', groupStep rec acc
+      have hstep : ∃ f', groupStep v rec acc
           ('(' :: (inner.printL ++ ')' :: (sub.print ++ (rest.printL ++ []))), ')' :: (sub.print ++ (rest.printL ++ [])))
           = .error f' := by
         unfold groupStep
@@ -531,30 +541,30 @@ theorem groupsLoop_bad (T : Tables) (rec : List Char → Except Fail (Atoms × N
 /-- a shaped formula that is empty, has an unknown symbol, a zero or malformed subscript or an empty
     parenthesis is rejected — at any depth -/
 theorem parseSimple_invalid (T : Tables) : ∀ (fuel : Nat) (f : Formula), f.Shape →
-    (f = .nil ∨ ¬ f.Known (elementsOf T)) → f.printL.length < fuel → ∃ e, parseSimple T fuel f.printL = .error e := by
+    (f = .nil ∨ ¬ KnownV v (elementsOf T) f) → f.printL.length < fuel → ∃ e, parseSimple v T fuel f.printL = .error e := by
   intro fuel
   induction fuel with
   | zero => intro f _ _ h; omega
   | succ n ih =>
     intro f hf hbad hlen
-    show ∃ e, parseLevel T (parseSimple T n) f.printL = .error e
+    show ∃ e, parseLevel v T (parseSimple v T n) f.printL = .error e
     by_cases hnil : f = .nil
     · subst hnil
       exact ⟨_, by simp [parseLevel, Formula.printL, pass1, isLowerC, isDigitC]; rfl⟩
-    · have hk : ¬ f.Known (elementsOf T) := by
+    · have hk : ¬ KnownV v (elementsOf T) f := by
         rcases hbad with h | h
         · exact absurd h hnil
         · exact h
       obtain ⟨p, hp⟩ := pass1_top f hf [] [] [] [] '\x00'
       simp only [List.append_nil, List.nil_append, pass1] at hp
-      have hp' : pass1 f.printL '\x00' {} = .ok ⟨0, ups f [], begs f [], ens f []⟩ := hp
+      have hp' : pass1 v f.printL '\x00' {} = .ok ⟨0, ups f [], begs f [], ens f []⟩ := hp
       unfold parseLevel
       rw [if_neg (by rw [first_char_ok hnil hf]; simp)]
       simp only [hp', scan_nonempty hnil]
-      by_cases hA : KnownA (elementsOf T) f
-      · have hG : ¬ KnownG (elementsOf T) f := fun hG => hk ((known_iff _ f).2 ⟨hA, hG⟩)
+      by_cases hA : KnownA v (elementsOf T) f
+      · have hG : ¬ KnownG v (elementsOf T) f := fun hG => hk ((known_iff _ f).2 ⟨hA, hG⟩)
         obtain ⟨ca, hca⟩ := atomsLoop_fine T f hf hA []
-        obtain ⟨e, he⟩ := groupsLoop_bad T (parseSimple T n) n
+        obtain ⟨e, he⟩ := groupsLoop_bad T (parseSimple v T n) n
           (fun g hg hl => by obtain ⟨ca, k, h, _⟩ := parseSimple_ok T n g hg hl; exact ⟨_, h⟩)
           (fun g hg hb hl => ih g hg hb hl) f hf hG (by omega) (ca, 0)
         exact ⟨_, by simp only [hca, he]; rfl⟩
